@@ -32,10 +32,6 @@ impl MmapMut {
     fn flush_async(&self) -> std::io::Result<()> {
         panic!()
     }
-
-    fn copy_from_slice(&self, _: &[u8]) {
-        panic!()
-    }
 }
 
 pub struct Writer {
@@ -43,6 +39,7 @@ pub struct Writer {
     builder: IntegrityOpts,
     mmap: Option<MmapMut>,
     tmpfile: NamedTempFile,
+    pos: usize,
 }
 
 impl Writer {
@@ -72,10 +69,13 @@ impl Writer {
             builder: IntegrityOpts::new().algorithm(algo),
             tmpfile,
             mmap,
+            pos: 0,
         })
     }
 
-    pub fn close(self) -> Result<Integrity> {
+    pub fn close(mut self) -> Result<Integrity> {
+        mmap_finish(&mut self.mmap, &self.tmpfile, self.pos)
+            .with_context(|| "Failed to finish memory-mapped cache contents".to_string())?;
         let sri = self.builder.result();
         let cpath = path::content_path(&self.cache, &sri);
         DirBuilder::new()
@@ -115,11 +115,9 @@ impl Writer {
 impl Write for Writer {
     fn write(&mut self, buf: &[u8]) -> std::io::Result<usize> {
         self.builder.input(buf);
-        if let Some(mmap) = &mut self.mmap {
-            mmap.copy_from_slice(buf);
-            Ok(buf.len())
-        } else {
-            self.tmpfile.write(buf)
+        match mmap_write(&mut self.mmap, &mut self.tmpfile, &mut self.pos, buf)? {
+            Some(written) => Ok(written),
+            None => self.tmpfile.write(buf),
         }
     }
 
@@ -143,6 +141,7 @@ struct Inner {
     builder: IntegrityOpts,
     tmpfile: NamedTempFile,
     mmap: Option<MmapMut>,
+    pos: usize,
     buf: Vec<u8>,
     last_op: Option<Operation>,
 }
@@ -177,6 +176,7 @@ impl AsyncWriter {
             cache: cache_path,
             builder: IntegrityOpts::new().algorithm(algo),
             mmap,
+            pos: 0,
             tmpfile,
             buf: vec![],
             last_op: None,
@@ -197,11 +197,13 @@ impl AsyncWriter {
                         Some(inner) => {
                             let (s, r) = futures::channel::oneshot::channel();
                             let tmpfile = inner.tmpfile;
+                            let mut mmap = inner.mmap;
+                            let pos = inner.pos;
                             let sri = inner.builder.result();
                             let cpath = path::content_path(&inner.cache, &sri);
 
                             // Start the operation asynchronously.
-                            *state = State::Busy(crate::async_lib::spawn_blocking(|| {
+                            *state = State::Busy(crate::async_lib::spawn_blocking(move || {
                                 let res = std::fs::DirBuilder::new()
                                     .recursive(true)
                                     // Safe unwrap. cpath always has multiple segments
@@ -211,6 +213,11 @@ impl AsyncWriter {
                                             "building directory {} failed",
                                             cpath.parent().unwrap().display()
                                         )
+                                    })
+                                    .and_then(|_| {
+                                        mmap_finish(&mut mmap, &tmpfile, pos).with_context(|| {
+                                            "finishing memory-mapped contents failed".to_string()
+                                        })
                                     });
                                 if res.is_err() {
                                     let _ = s.send(res.map(|_| sri));
@@ -307,15 +314,18 @@ impl AsyncWrite for AsyncWriter {
                         // Start the operation asynchronously.
                         *state = State::Busy(crate::async_lib::spawn_blocking(|| {
                             inner.builder.input(&inner.buf);
-                            if let Some(mmap) = &mut inner.mmap {
-                                mmap.copy_from_slice(&inner.buf);
-                                inner.last_op = Some(Operation::Write(Ok(inner.buf.len())));
-                                State::Idle(Some(inner))
-                            } else {
-                                let res = inner.tmpfile.write(&inner.buf);
-                                inner.last_op = Some(Operation::Write(res));
-                                State::Idle(Some(inner))
-                            }
+                            let res = match mmap_write(
+                                &mut inner.mmap,
+                                &mut inner.tmpfile,
+                                &mut inner.pos,
+                                &inner.buf,
+                            ) {
+                                Ok(Some(written)) => Ok(written),
+                                Ok(None) => inner.tmpfile.write(&inner.buf),
+                                Err(e) => Err(e),
+                            };
+                            inner.last_op = Some(Operation::Write(res));
+                            State::Idle(Some(inner))
                         }));
                     }
                 }
@@ -421,6 +431,69 @@ impl AsyncWriter {
             }
         }
     }
+}
+
+/// Writes `buf` through the memory map at position `pos` when it still fits the
+/// declared size. When it does not, the map is dropped and the file is
+/// positioned so that the caller continues with plain writes. Returns
+/// `Ok(None)` when the caller has to write `buf` to the file itself.
+#[cfg(feature = "mmap")]
+fn mmap_write(
+    mmap: &mut Option<MmapMut>,
+    tmpfile: &mut NamedTempFile,
+    pos: &mut usize,
+    buf: &[u8],
+) -> std::io::Result<Option<usize>> {
+    if let Some(map) = mmap {
+        let fits = pos
+            .checked_add(buf.len())
+            .map_or(false, |end| end <= map.len());
+        if fits {
+            map[*pos..*pos + buf.len()].copy_from_slice(buf);
+            *pos += buf.len();
+            return Ok(Some(buf.len()));
+        }
+        map.flush()?;
+        *mmap = None;
+        tmpfile
+            .as_file_mut()
+            .seek(std::io::SeekFrom::Start(*pos as u64))?;
+    }
+    Ok(None)
+}
+
+#[cfg(not(feature = "mmap"))]
+fn mmap_write(
+    _: &mut Option<MmapMut>,
+    _: &mut NamedTempFile,
+    _: &mut usize,
+    _: &[u8],
+) -> std::io::Result<Option<usize>> {
+    Ok(None)
+}
+
+/// Flushes and drops the memory map, and cuts the pre-sized file down to the
+/// bytes actually written if fewer than the declared size were supplied.
+#[cfg(feature = "mmap")]
+fn mmap_finish(
+    mmap: &mut Option<MmapMut>,
+    tmpfile: &NamedTempFile,
+    pos: usize,
+) -> std::io::Result<()> {
+    if let Some(map) = mmap.take() {
+        map.flush()?;
+        let len = map.len();
+        drop(map);
+        if pos < len {
+            tmpfile.as_file().set_len(pos as u64)?;
+        }
+    }
+    Ok(())
+}
+
+#[cfg(not(feature = "mmap"))]
+fn mmap_finish(_: &mut Option<MmapMut>, _: &NamedTempFile, _: usize) -> std::io::Result<()> {
+    Ok(())
 }
 
 #[cfg(feature = "mmap")]
